@@ -178,6 +178,13 @@ PROPS = {
         "technique": "Lean 4 model of Stream option handling (negative start, start/stop check, final-only cursor check, filter and stop handlers as list transformers) + monitors (nothing above the stop block, filters only remove) + differential correspondence",
         "level_text": "PLACEHOLDER", "level_note": LEVEL_NOTE_COMMON, "explanation": "PLACEHOLDER",
     },
+    "C11": {
+        "suites": [("faults", 500, 6000)], "props": ["C11"], "level": "other",
+        "nontrivial": lambda suite, case, impl: any(l.startswith("impl blk") for l in case["lines"]),
+        "rule": "cases = a file source over a generated chain in bundles (size 2/3/5/10, 1-6 preprocessor threads, start in the first half, stop near the end) with exactly one injected fault: OpenObject of one bundle fails; FileExists of one bundle fails persistently; the bytes of one bundle are damaged (bad header, length prefix enlarged, truncation inside a message, message made undecodable, I/O error while reading) at a chosen message; the preprocessor fails on one block; the handler fails at call k. distinct = sha1 of header+body; non-trivial = at least one block was delivered before the fault",
+        "technique": "Lean 4 sequential model giving the allowed outcome set per fault (gap-free prefix bounded by the fault position + error class) + fault-injecting store around the real FileSource + watchdog for Run not returning + late-handler-call detection",
+        "level_text": "PLACEHOLDER", "level_note": LEVEL_NOTE_COMMON, "explanation": "PLACEHOLDER",
+    },
     "C09": {
         "suites": [("hubburst", 2500, 30000)], "props": ["C09"], "level": "other",
         "projection": proj_forkable, "nontrivial": lambda suite, case, impl: any(l.startswith("impl b newirr") for l in case["lines"]),
